@@ -730,11 +730,15 @@ func (c *converter) Input(prompt string, valueUsed bool) (string, error) {
 }
 
 func (c *converter) Copy(destination string, source string, valueUsed bool, global bool) (string, error) {
+	helper := c.nextHelperVar()
+
 	c.sliceCopyHelperRequired = true
 	c.callFunc(sliceCopyHelper, []string{}, c.varName(destination, global), source)
 
 	c.callFunc(sliceLenGetHelper, []string{}, source) // The copied amount is the source length.
-	return c.varEvaluationString("_len", true), nil
+	c.VarAssignment(helper, c.varEvaluationString("_len", true), false) // _len is overwritten by the next length evaluation.
+
+	return c.VarEvaluation(helper, valueUsed, false)
 }
 
 func (c *converter) Exists(path string, valueUsed bool) (string, error) {
